@@ -515,7 +515,7 @@ pub fn check(case: &Case, st: &mut Stats) -> Result<(), String> {
             }
         },
         Case::Xml { chunks: ch } => {
-            let (tee, _) = drive_xml(Tee::new(), &XmlCfg::default(), ch, |_| {});
+            let (tee, _) = drive_xml(Tee::new(), &XmlCfg::default(), ch, |_, _| {});
             compare(&tee)?;
             st.label("parse:xml");
         },
@@ -622,7 +622,7 @@ pub fn run(ctx: &Ctx) -> Report {
     rep.assume("reparent_children is only generated where it cannot create adjacent text nodes (the tree builder re-parents into fresh elements only; the trait does not say whether texts merge)");
     report_known(ctx, &mut rep, &|v| replay(&ctx.strict_clone(), v));
     run_regressions(ctx, &mut rep, &|v| replay(&ctx.strict_clone(), v));
-    let out = run_random(ctx.seed, ctx.tier.pick(200_000, 10_000_000), 1500, decode, check);
+    let out = run_random(ctx.seed, ctx.tier.pick(1_500_000, 20_000_000), 1500, decode, check);
     rep.absorb(out);
     for l in [
         "parse:reparent_children",
